@@ -703,6 +703,68 @@ func (f *FuncCFG) OKReturns() []site {
 			out = append(out, s)
 		}
 	}
+	for _, b := range f.G.Blocks {
+		if !b.Live || len(b.Succs) != 0 {
+			continue
+		}
+		if len(b.Nodes) > 0 {
+			last := b.Nodes[len(b.Nodes)-1]
+			if _, isRet := last.(*ast.ReturnStmt); isRet {
+				continue
+			}
+			if es, ok := last.(*ast.ExprStmt); ok {
+				if call, ok := es.X.(*ast.CallExpr); ok && noReturnCall(f.Info, call) {
+					continue
+				}
+			}
+		}
+		out = append(out, site{b, len(b.Nodes), f.Body, nil}) // falls off the end
+	}
+	return out
+}
+
+// WriteSites lists the nodes that write the given field (directly).
+func (f *FuncCFG) WriteSites(field string) []site {
+	var out []site
+	for _, b := range f.G.Blocks {
+		if !b.Live {
+			continue
+		}
+		for i, n := range b.Nodes {
+			for _, w := range nodeWrites(f.Info, n, false) {
+				if w.Field == field {
+					out = append(out, site{b, i, n, nil})
+					break
+				}
+			}
+		}
+	}
+	return out
+}
+
+// regionEntries: live blocks inside region with a predecessor outside it.
+func (f *FuncCFG) regionEntries(region ast.Node) []*cfg.Block {
+	in := func(b *cfg.Block) bool {
+		if len(b.Nodes) > 0 {
+			return containsNode(region, b.Nodes[0])
+		}
+		return b.Stmt != nil && containsNode(region, b.Stmt) && b.Stmt != region
+	}
+	var out []*cfg.Block
+	for _, b := range f.G.Blocks {
+		if !b.Live || !in(b) {
+			continue
+		}
+		outside := len(f.preds[b]) == 0
+		for _, p := range f.preds[b] {
+			if !in(p) {
+				outside = true
+			}
+		}
+		if outside {
+			out = append(out, b)
+		}
+	}
 	return out
 }
 
@@ -714,6 +776,12 @@ type Guard struct {
 	ID   string
 	Doc  string
 	Alts [][]string // alternatives (e.g. the two arms of a branch); every alternative must be present and gating
+	// Whole also admits a compound condition taken as a whole (needed for `a || b` guards, where no single atom
+	// decides); off by default because it would hide a guard weakened by an added conjunct.
+	Whole bool
+	// Extra lists further symbols a Whole condition may mention besides those of Alts; any other program symbol
+	// in the compound condition (an added escape hatch such as `&& op != NOP`) disqualifies it as a guard.
+	Extra []string
 }
 
 // GateResult describes the verdict for one guard.
@@ -726,6 +794,11 @@ type GateResult struct {
 
 // CheckGate: every path from 'from' to any block in targets crosses a gating condition of the guard.
 func (f *FuncCFG) CheckGate(from []*cfg.Block, targets map[*cfg.Block]bool, g Guard, assume *Assume) GateResult {
+	return f.CheckGateIn(nil, from, targets, g, assume)
+}
+
+// CheckGateIn is CheckGate with the guard conditions restricted to those inside region (nil = whole function).
+func (f *FuncCFG) CheckGateIn(region ast.Node, from []*cfg.Block, targets map[*cfg.Block]bool, g Guard, assume *Assume) GateResult {
 	type cand struct {
 		b                *cfg.Block
 		alts             []int
@@ -743,10 +816,37 @@ func (f *FuncCFG) CheckGate(from []*cfg.Block, targets map[*cfg.Block]bool, g Gu
 		if c == nil {
 			continue
 		}
+		if region != nil && !containsNode(region, c) {
+			continue
+		}
 		if _, known := f.evalBlock(b, assume); known {
 			continue
 		}
-		for _, at := range condAtoms(c) {
+		atoms := condAtoms(c)
+		if g.Whole && len(atoms) > 1 {
+			allowed := map[string]bool{}
+			for _, alt := range g.Alts {
+				for _, s := range alt {
+					allowed[s] = true
+				}
+			}
+			for _, s := range g.Extra {
+				allowed[s] = true
+			}
+			closed := true
+			for s := range f.Mentions(c, b) {
+				if strings.HasPrefix(s, "param:") || strings.HasPrefix(s, "local:") || strings.HasPrefix(s, "type:") || strings.HasPrefix(s, "builtin.") {
+					continue
+				}
+				if !allowed[s] {
+					closed = false
+				}
+			}
+			if closed {
+				atoms = append(atoms, atom{c, true, true})
+			}
+		}
+		for _, at := range atoms {
 			if !assume.empty() {
 				if _, known := f.eval3(at.e, b, assume); known {
 					continue
